@@ -437,7 +437,7 @@ def c16_seq(o1: int, k1: int, o2: int, k2: int, o3: int, k3: int, o4: int, k4: i
 
 def JOBS(tier):
     quick = tier == "quick"
-    t = 25 if quick else 600
+    t = 25 if quick else 200
     jobs = []
     for si in range(len(SHAPES)):
         if quick and si in (0, 3, 5, 6):
